@@ -13,10 +13,19 @@ cd $S
 res=""
 if git apply "$d/patch.diff"; then
   if go build ./... >/dev/null 2>&1; then res="$res builds=yes"; else res="$res builds=NO"; fi
-  if go test -vet=off -count=1 -p 4 ./... >/tmp/vseed-suite.log 2>&1; then res="$res suite=pass"; else
-     # one retry for the timing-sensitive rtptime test
-     if go test -vet=off -count=1 -p 1 ./... >/tmp/vseed-suite.log 2>&1; then res="$res suite=pass(retry)"; else res="$res suite=FAIL"; fi
+  # the suite has a fixed-port test (webserver, localhost:1234) and a sleep-accuracy test
+  # (rtptime): one suite at a time, and packages that fail are re-run alone up to 3 times
+  L=/tmp/vseed-suite.$$.log
+  if flock /tmp/vseed-suite.lock go test -vet=off -count=1 -p 4 ./... >$L 2>&1; then res="$res suite=pass"; else
+     ok=1
+     for pk in $(grep -E '^(FAIL|---)?\s*FAIL\s+github.com' $L | awk '{print $2}' | sort -u); do
+        good=0
+        for i in 1 2 3; do if flock /tmp/vseed-suite.lock go test -vet=off -count=1 -p 1 $pk >>$L 2>&1; then good=1; break; fi; done
+        [ $good = 1 ] || ok=0
+     done
+     if [ $ok = 1 ]; then res="$res suite=pass(retry)"; else res="$res suite=FAIL"; cp $L /tmp/vseed-suite-fail.log; fi
   fi
+  rm -f $L
   cp "$d/seeded_demo_test.go" $S/$pkg/seeded_demo_test.go
   if eval "$run" >/tmp/vseed-demo1.log 2>&1; then res="$res demo_with_patch=PASSES(bad)"; else res="$res demo_with_patch=fails"; fi
   git apply -R "$d/patch.diff"
